@@ -26,7 +26,7 @@ func c10Large(c *fw.Ctx) {
 		sizes = append(sizes, 16384, 16385, 20000)
 	}
 	// where the 64-bit offsets sit in hash-sorted order
-	layouts := []string{"none", "first-only", "last-only", "every-32nd", "after-8192-only", "before-8192-only"}
+	layouts := []string{"none", "first-only", "last-only", "every-32nd", "after-8192-only", "before-8192-only", "beyond-4GiB"}
 	c.Bound("large_index_sizes", sizes)
 	c.Bound("large_index_64bit_layouts", layouts)
 	scratch := c.TempDir("c10large")
@@ -73,6 +73,10 @@ func c10Large(c *fw.Ctx) {
 					big = i >= 8192 && i%16 == 0
 				case "before-8192-only":
 					big = i < 8192 && i%16 == 0
+				}
+				if lay == "beyond-4GiB" && i%16 == 0 {
+					// above 2^32, and ordered differently by their low 32 bits than by their value
+					off = (uint64(i%5)+1)<<32 | uint64(n-i)*64
 				}
 				if big {
 					off = 1<<31 + uint64(i)*64
